@@ -115,7 +115,8 @@ pub fn run(ctx: &Ctx) -> Rep {
     }
     rep.self_check("model: 7462 classes, category populations, endpoints", true);
 
-    let all_orders = ctx.thorough();
+    // all 120 slot orders of every hand: thorough, and the fast leg of quick (~9 s); the checked leg of quick samples
+    let all_orders = ctx.thorough() || (ctx.leg != "checked" && !ctx.smoke());
     let perms: Vec<[u8; 8]> = (0..factorial(5)).map(|k| nth_permutation(5, k)).collect();
     let units = drive::pairs(52);
     let stride = if ctx.smoke() { 97 } else { 1 }; // smoke: a thin slice of the units
